@@ -48,10 +48,13 @@ Proof. unfold all_digits. rewrite !Forall_forall. split; intros H x Hx; apply H;
 Definition raw_denote (neg : bool) (nat : bytes) (exp : Z) : dval :=
   ((if neg then - val nat else val nat), - exp).
 
+Lemma frev_rev l : frev l = rev l.
+Proof. unfold frev. symmetry. apply rev_alt. Qed.
+
 Theorem normalise_ok neg nat exp : all_digits nat -> 0 <= exp <= len nat ->
   exists n, normalise neg nat exp = Ok n /\ normal n /\ deq (denote n) (raw_denote neg nat exp).
 Proof.
-  intros Hd He. unfold normalise.
+  intros Hd He. unfold normalise. rewrite !frev_rev.
   destruct (Z.ltb_spec exp 0); [lia|]. destruct (Z.gtb_spec exp (len nat)); [lia|]. cbn [orb].
   set (k := Z.to_nat (len nat - exp)).
   destruct (trim_lead_spec k nat) as (j & Hj & Hnat & Hz).
@@ -64,7 +67,7 @@ Proof.
   destruct (Z.gtb_spec exp (len nat1)); [lia|]. cbn [orb].
   destruct (trim_trail_spec (Z.to_nat exp) (rev nat1)) as (t & Ht & Hr & Hzt).
   destruct (trim_trail_rev (Z.to_nat exp) (rev nat1)) as [e2 r] eqn:Et. cbn [fst snd] in *.
-  set (nat2 := rev r).
+  rewrite !frev_rev. set (nat2 := rev r).
   assert (Hn1 : nat1 = nat2 ++ repeat 48%N t).
   { rewrite <- (rev_involutive nat1), Hr, rev_app_distr, repeat_rev. reflexivity. }
   assert (Hd2 : all_digits nat2) by (rewrite Hn1 in Hd1; apply all_digits_app in Hd1; tauto).
